@@ -99,6 +99,21 @@ Theorem C16_traffic_final_report_complete :
 Proof. intros base sh H1 H2 H3. exact (report_alone_complete base sh H1 H2 H3). Qed.
 Print Assumptions C16_traffic_final_report_complete.
 
+(* headline form of (3): traffic totals are reported once.  ANY reporters and copy loops, ANY schedule; once every thread has
+   finished, the last report that runs with nobody else moving (the final periodic report / the cleanup handler's report
+   after the copy loops have ended) leaves cloud control with exactly base + the final byte counter: every counted byte has
+   been reported, none twice (before that report the reported total is the sum of the positive deltas and <= the counter). *)
+Theorem C16_traffic_totals_reported_once :
+  forall (base : Z) (ts : list rpc) (sched : list nat),
+  forallb r_initial ts = true ->
+  let s := rrun true base ts sched in
+  forallb r_finished (snd s) = true ->
+  let sh' := report_alone true (fst s) in
+  (r_stats sh' = base + r_cnt (fst s))%Z /\ r_last sh' = r_cnt (fst s) /\ r_cnt sh' = r_cnt (fst s) /\ r_mu sh' = false /\
+  (r_stats (fst s) - base = zsum (r_calls (fst s)))%Z /\ (r_stats (fst s) - base <= r_cnt (fst s))%Z.
+Proof. intros base ts sched H1 s H2. exact (traffic_totals_reported_once base ts sched H1 H2). Qed.
+Print Assumptions C16_traffic_totals_reported_once.
+
 (* the pinned reportTrafficStats: cleanup handler and final report compute the same delta: 100 bytes reported as 200 *)
 Theorem C16_pinned_traffic_double_report_refuted :
   exists sched,
